@@ -6,6 +6,7 @@ import (
 	"fmt"
 	"io"
 	"os"
+	"path/filepath"
 	"sort"
 	"sync"
 	"testing"
@@ -92,7 +93,8 @@ func genRemote(p *simkit.Plan, r *simkit.Rand, tier string) {
 		case 2:
 			p.Ops = append(p.Ops, simkit.Op{Actor: "driver", Kind: "sync"}) // scan + stage + supply + transition towards alpha's content
 		case 3:
-			p.Ops = append(p.Ops, simkit.Op{Actor: "driver", Kind: "supply"})
+			// (1: one of the files vanishes between the scan and the request)
+			p.Ops = append(p.Ops, simkit.Op{Actor: "driver", Kind: "supply", N: []int64{int64(r.Intn(2))}})
 		case 4:
 			p.Ops = append(p.Ops, simkit.Op{Actor: "driver", Kind: "poll", N: []int64{int64(simkit.Pick(r, []int{1, 40}))}})
 		}
@@ -101,6 +103,14 @@ func genRemote(p *simkit.Plan, r *simkit.Rand, tier string) {
 	if p.Scenario == "remote-cut" {
 		p.Faults = append(p.Faults, simkit.Fault{Kind: "link_cut", Key: simkit.Pick(r, []string{"ab", "ba"}), Nth: 1, Arg: int64(r.Range(1, 6000))})
 	}
+}
+
+// sim0 picks an index in [0,n) from the run seed (n >= 1).
+func sim0(n int, seed uint64) int {
+	if n <= 1 {
+		return 0
+	}
+	return int(seed % uint64(n))
 }
 
 type memSink struct {
@@ -317,6 +327,15 @@ func execRemote(t *testing.T, plan *simkit.Plan) *simkit.Result {
 					if len(paths) == 0 {
 						continue
 					}
+					if op.Int(0) == 1 && len(paths) >= 2 {
+						// The supplier can no longer open one of the requested
+						// files; the ones after it must still arrive.
+						victim := paths[sim0(len(paths)-1, plan.Seed)]
+						for _, side := range []string{"beta", "gamma"} {
+							rmAll(filepath.Join(c.d.roots[side], victim))
+						}
+						s.Count("fault.supplied_file_vanished", 1)
+					}
 					sigs := make([]*rsync.Signature, len(paths))
 					for i := range sigs {
 						sigs[i] = &rsync.Signature{}
@@ -334,8 +353,8 @@ func execRemote(t *testing.T, plan *simkit.Plan) *simkit.Result {
 					}
 					for _, p := range paths {
 						a, b := sinkL.files[p], sinkR.files[p]
-						if a == nil || b == nil || !bytes.Equal(a.Bytes(), b.Bytes()) {
-							s.Violate("C21", "supplied-data-differs", "Supply", "file %q supplied locally and remotely differs", p)
+						if (a == nil) != (b == nil) || (a != nil && !bytes.Equal(a.Bytes(), b.Bytes())) {
+							s.Violate("C21", "supplied-data-differs", "Supply", "file %q supplied locally and remotely differs (local present %v, remote present %v)", p, a != nil, b != nil)
 						}
 					}
 					s.Count("probe.supplies_compared", 1)
